@@ -107,7 +107,12 @@ fn build_case(
             tags[src.below(tags.len())].clone()
         };
         let base = numeric_base(&t);
-        match src.below(6) {
+        match src.below(7) {
+            6 => {
+                let occ = tags.iter().filter(|x| **x == t).count().max(1);
+                let k = src.below(occ);
+                ops.push(TrackerOp::TakeSlice(t, k, 1 + src.below(occ)))
+            }
             5 => {
                 let occ = tags.iter().filter(|x| **x == t).count().max(1);
                 ops.push(TrackerOp::Mark(t, src.below(occ)))
@@ -316,6 +321,30 @@ pub fn oracle(c: &TokCase, obs: &mut Obs) -> Vec<Violation> {
                                 consumed.entry(tag.clone()).or_default().push(*p);
                             }
                         }
+                        TrackerOp::TakeSlice(tag, k, n) => {
+                            let exp = map.get(tag).and_then(|vs| {
+                                let mut ps: Vec<(String, usize)> = vs.clone();
+                                ps.sort_by_key(|x| x.1);
+                                let lo = (*k).min(ps.len());
+                                let hi = (lo + *n).min(ps.len());
+                                ps[lo..hi]
+                                    .iter()
+                                    .find(|(_, p)| {
+                                        !consumed.get(tag).map(|c| c.contains(p)).unwrap_or(false)
+                                    })
+                                    .map(|(v, p)| (tag.clone(), v.clone(), *p))
+                            });
+                            if *r != exp {
+                                out.push(viol(
+                                    "C16|tracker|next-available-in-sublist",
+                                    format!("{:?}: expected {:?}, got {:?}", op, exp, r),
+                                ));
+                                return out;
+                            }
+                            if let Some((_, _, p)) = r {
+                                consumed.entry(tag.clone()).or_default().push(*p);
+                            }
+                        }
                         TrackerOp::Mark(tag, k) => {
                             let exp = map.get(tag).and_then(|vs| {
                                 let mut ps: Vec<(String, usize)> = vs.clone();
@@ -498,7 +527,7 @@ pub fn oracle(c: &TokCase, obs: &mut Obs) -> Vec<Violation> {
 }
 
 pub fn run(ctx: &Ctx) {
-    ctx.add_rule("bulk texts (token lists of several generated messages concatenated and cut at 130..4097 fields around every power of two; up to 65 536 in the thorough tier) with histories of up to 600 requests focused on one tag; and per message type: well-delimited block-4 texts (valid and structurally mutated: unknown tags, duplicates, reorderings; LF, CRLF or a mix of both from field to field; leading/trailing blank lines) as extract_block returns them, plus a history of up to 40 consumption requests (peek / take by tag, find by base tag with and without option constraints, mark the k-th occurrence consumed out of order); oracle: reference tokenizer list == map flattened by position (tag or its numeric base, content up to surrounding white space, positions strictly increasing), a per-tag model of the tracker, and partition checks for split_into_sequences / parse_repetitive_sequence; non-trivial = a tag occurs twice, or a history mixing take and find; distinct by text/history");
+    ctx.add_rule("bulk texts (token lists of several generated messages concatenated and cut at 130..4097 fields around every power of two; up to 65 536 in the thorough tier) with histories of up to 600 requests focused on one tag; and per message type: well-delimited block-4 texts (valid and structurally mutated: unknown tags, duplicates, reorderings; LF, CRLF or a mix of both from field to field; leading/trailing blank lines) as extract_block returns them, plus a history of up to 40 consumption requests (peek / take by tag, find by base tag with and without option constraints, mark the k-th occurrence consumed out of order, take from a sub-list of a tag's occurrences as with per-sequence maps); oracle: reference tokenizer list == map flattened by position (tag or its numeric base, content up to surrounding white space, positions strictly increasing), a per-tag model of the tracker, and partition checks for split_into_sequences / parse_repetitive_sequence; non-trivial = a tag occurs twice, or a history mixing take and find; distinct by text/history");
     ctx.assume("the option letter may be removed only for field numbers outside the table normalize_field_tag documents (11 13 21 23 25 26 28 32 33 34 37 50-60 62 71 77 90)");
     ctx.assume("domain: content lines never start with ':' or '-' and nothing precedes the first field (the tokeniser's behaviour there is documented nowhere)");
     ctx.assume("find-by-base: the letterless tag is served before lettered ones (the function documents it); among lettered tags the earliest unconsumed eligible occurrence in input order is expected");
